@@ -84,7 +84,7 @@ def make_cases(ctx):
 
 
 def establish(rng, ver, with_tickets, ckey, hb=True, suite=None,
-              client_cb=True, server_hb=None):
+              client_cb=True, server_hb=None, resume=False, hrr=False):
     # sending heartbeat requests needs a response callback in the settings;
     # an endpoint without one still has to answer the peer's requests
     ckw = dict(use_heartbeat_extension=hb,
@@ -95,6 +95,8 @@ def establish(rng, ver, with_tickets, ckey, hb=True, suite=None,
     if with_tickets:
         skw["ticketKeys"] = [bytes(range(32))]
         skw["ticket_count"] = rng.choice([1, 2, 3])
+    if hrr:
+        ckw["keyShares"] = []
     if suite:
         ckw["cipherNames"] = [suite[1]]
         skw["cipherNames"] = [suite[1]]
@@ -106,6 +108,20 @@ def establish(rng, ver, with_tickets, ckey, hb=True, suite=None,
     ss = ver_settings(ver, **skw)
     fl = Flavor("cert", skey=rng.choice(["rsa", "ecdsa256"]), ckey=ckey,
                 cset=cs, sset=ss)
+    if resume:
+        # the connection the history runs on is a resumed one (session ID,
+        # or ticket where the server issues them)
+        from tlslite.sessioncache import SessionCache
+        from vt.flavours import pump
+        fl.session_cache = SessionCache()
+        p0 = Pair()
+        t0c, t0s = p0.handshake(fl)
+        if t0c.status != "done" or t0s.status != "done":
+            return p0, t0c, t0s
+        pump(p0, p0.c, p0.csock)
+        drive.run([drive.Task("cc", drive.aclose(p0.c), p0.csock),
+                   drive.Task("sc", drive.aclose(p0.s), p0.ssock)], p0.link)
+        fl.session = p0.c.session
     p = Pair()
     tc, ts = p.handshake(fl)
     return p, tc, ts
@@ -132,8 +148,12 @@ def run_history(ctx, cid, P):
     ckey = rng.choice([None, "rsa", "ecdsa"]) if t13 else None
     tickets = rng.random() < 0.6
     client_cb = rng.random() < 0.7
+    resume = rng.random() < 0.3 and (ver < (3, 4) or tickets)
     p, tc, ts = establish(rng, ver, tickets, ckey, True, suite,
-                          client_cb=client_cb)
+                          client_cb=client_cb, resume=resume)
+    if resume and tc.status == "done" and ts.status == "done":
+        ctx.count("histories_on_resumed_connection" if p.c.resumed
+                  else "histories_resumption_declined")
     if tc.status != "done" or ts.status != "done":
         ctx.violation({"clause": "control_handshake_failed",
                        "ver": pair.VNAME[ver]},
@@ -742,17 +762,23 @@ def run_negative(ctx, cid, P):
         pass
     if k in ("hb_declared_longer", "hb_short_padding", "hb_not_negotiated"):
         ver = rng.choice([(3, 2), (3, 3), (3, 4)])
+    # post-handshake rules hold whichever way the handshake went: half of
+    # the TLS 1.3 cases get there through a HelloRetryRequest
+    hrr = ver == (3, 4) and P.get("r", 0) % 2 == 1
     p, tc, ts = establish(rng, ver, False, "rsa" if k in (
         "cert_unknown_context",) else None, hb,
-        server_hb=False if k == "hb_not_negotiated" else None)
+        server_hb=False if k == "hb_not_negotiated" else None, hrr=hrr)
     if tc.status != "done" or ts.status != "done":
         ctx.inconc("control failed in %s" % cid)
         return
+    if hrr:
+        ctx.count("negatives_after_hello_retry")
     # who sends the bad control message, who is the victim
     sender, victim, ssock, vsock, vname = p.c, p.s, p.csock, p.ssock, "server"
     if k in ("cr_without_pha_ext", "ccs_post_13", "hb_not_allowed",
              "finished_post_handshake"):
-        if rng.random() < 0.5 or k == "cr_without_pha_ext":
+        if rng.random() < 0.5 or k == "cr_without_pha_ext" or \
+                (k == "ccs_post_13" and hrr):
             sender, victim, ssock, vsock, vname = p.s, p.c, p.ssock, \
                 p.csock, "client"
     expect_alert = True
